@@ -112,6 +112,11 @@ def jws_call(op, entry, alg, style, L, reg_obj=None):
         kw["algorithms"] = L
     elif style == "registry":
         kw["registry"] = reg_obj if reg_obj is not None else (rfc7797.JWSRegistry(algorithms=L) if entry == "rfc7797" else jws.JWSRegistry(algorithms=L))
+    elif style == "plain-registry":
+        # the RFC 7515 registry class handed to the RFC 7797 functions: it may refuse the b64 header, it must not widen the list
+        if entry != "rfc7797":
+            return "skip", None
+        kw["registry"] = jws.JWSRegistry(algorithms=L)
     payload = b'{"a":1}' if entry == "jwt" else b"payload"
     hdr = {"alg": alg}
     try:
@@ -156,16 +161,19 @@ def jwe_call(op, entry, alg, enc, zipv, style, L, reg_obj=None):
     key = k["obj"][kn]
     sender = k["obj"]["P-256s"] if isinstance(alg, str) and alg.startswith("ECDH-1PU") else None
     kw = {}
-    if style == "algorithms":
-        kw["algorithms"] = L
-    elif style == "registry":
-        kw["registry"] = reg_obj if reg_obj is not None else jwe.JWERegistry(algorithms=L)
-    elif style == "both":
-        # jwt over JWE: a JWERegistry instance selects the transport, the caller's list comes through algorithms=
-        if entry != "jwt":
-            return "skip", None
-        kw["registry"] = jwe.JWERegistry()
-        kw["algorithms"] = L
+    if style == "both" and entry != "jwt":
+        return "skip", None
+    try:
+        if style == "algorithms":
+            kw["algorithms"] = L
+        elif style == "registry":
+            kw["registry"] = reg_obj if reg_obj is not None else jwe.JWERegistry(algorithms=L)
+        elif style == "both":
+            # jwt over JWE: a JWERegistry instance selects the transport, the caller's list comes through algorithms=
+            kw["registry"] = jwe.JWERegistry()
+            kw["algorithms"] = L
+    except Exception as e:
+        return "err", e      # a registry that cannot even be built from the list: the listed names are not usable
     hdr = {"alg": alg, "enc": enc}
     if zipv is not None:
         hdr["zip"] = zipv
@@ -244,6 +252,8 @@ def judge(kind, op, entry, names, under_test, style, L, outcome):
     where = f"{kind}:{op}:{entry}"
     cell = {"kind": kind, "op": op, "entry": entry, "names": names, "style": style, "L": L}
     if must_accept:
+        if status == "err" and style == "plain-registry":
+            return "must-accept", None      # refusing the b64 header is this registry's right
         if status == "err":
             return "must-accept", (f"C05:allowed-algorithm-refused:{where}:{type(val).__name__}",
                                    f"{names} with allow-list {L!r} ({style}) must be usable but {op} raised {type(val).__name__}: {val}", cell)
@@ -253,6 +263,8 @@ def judge(kind, op, entry, names, under_test, style, L, outcome):
         return "must-reject", (f"C05:disallowed-algorithm-used:{where}:{bad[0][0]}",
                                f"{op} succeeded with {dict(bad)} although the allow-list is {L!r} ({style})", cell)
     bad = [(p, n) for p, n, v in verdicts if not v]
+    if style == "plain-registry":
+        return "must-reject", None      # whichever error: this registry may already object to the b64 header
     if bad and all(isinstance(n, str) for _, n in bad) and not isinstance(val, UnsupportedAlgorithmError):
         # only judged when the name under test is the sole problem (the other names are allowed)
         if len(bad) == 1 and all(isinstance(n, str) or n is None for n in names.values()):
@@ -312,9 +324,9 @@ def matrix(part):
     if part == "jws":
         for name in JWS_NAMES + BAD_STR + NON_STR:
             for shape, L in lists_for(name, JWS_NAMES, REC_JWS):
-                for style in (["default"] if L is None else ["algorithms", "registry"]):
+                for style in (["default"] if L is None else ["algorithms", "registry", "plain-registry"]):
                     for op in ("sign", "verify"):
-                        for entry in JWS_ENTRIES:
+                        for entry in (JWS_ENTRIES if style != "plain-registry" else ["rfc7797"]):
                             if isinstance(name, (list, dict)) and op == "verify" and False:
                                 continue
                             yield {"kind": "jws", "op": op, "entry": entry, "names": {"alg": name}, "style": style, "L": L, "shape": shape}
@@ -353,13 +365,18 @@ class HistoryState:
     def __init__(self, lists):
         from joserfc import jws, jwe, rfc7797
         self.regs = []
+        self.broken = []
         for kind, L in lists:
-            if kind == "jws":
-                self.regs.append(("jws", L, jws.JWSRegistry(algorithms=L)))
-            elif kind == "jws7797":
-                self.regs.append(("jws", L, rfc7797.JWSRegistry(algorithms=L)))
-            else:
-                self.regs.append(("jwe", L, jwe.JWERegistry(algorithms=L)))
+            try:
+                if kind == "jws":
+                    self.regs.append(("jws", L, jws.JWSRegistry(algorithms=L)))
+                elif kind == "jws7797":
+                    self.regs.append(("jws", L, rfc7797.JWSRegistry(algorithms=L)))
+                else:
+                    self.regs.append(("jwe", L, jwe.JWERegistry(algorithms=L)))
+            except Exception as e:
+                # a list may name things this registry does not know (they are simply not usable); the rest of the list stays usable
+                self.broken.append((kind, L, e))
 
     def step(self, st_):
         """Execute one step. Returns None (not judged) or (cell, (verdict, finding))."""
@@ -443,6 +460,9 @@ def run_history(h):
     state = HistoryState([tuple(x) for x in h["lists"]])
     f = {}
     info = []
+    for kind, L, e in state.broken:
+        f[f"C05:history:allowed-algorithm-refused:{kind}:registry-construction:{type(e).__name__}"] = [
+            f"a {kind} registry cannot be built from the allow-list {L!r}: {type(e).__name__}: {e}", {"history": {"lists": h["lists"], "steps": []}}]
     for n, st_ in enumerate(h["steps"]):
         res = state.step(st_)
         if res is None:
